@@ -8,10 +8,9 @@ From CKC Require Import Base.Prelude Base.Reflect Base.SortN Base.Combs Spec.Lay
 From CKC Require Import Model.Card Model.Hands Model.Five Model.HandRank.
 From CKC Require Import Proofs.CardFacts Proofs.SortFacts Proofs.CombFacts Proofs.BitFacts Proofs.FiveFacts
   Proofs.PokerFacts Proofs.RankedFacts Proofs.ShapeFacts Proofs.ValidFacts Proofs.C01 Proofs.BestFacts.
+From CKC Require Export Proofs.FreeFacts.
 From CKC Require Import Gen.Consts Gen.Decks.
 Open Scope N_scope.
-
-Definition HandN (n : nat) (ws : list N) : Prop := length ws = n /\ Forall RealCard ws /\ NoDup ws.
 
 (* the poker value of five cards under the rules (Spec): the ordinal of their shape *)
 Definition value5 (ws : list N) : N := ordinal (shape_of ws).
@@ -71,34 +70,6 @@ Proof.
   - apply IH. intros x Hx. apply H. right. exact Hx.
 Qed.
 
-
-(* ---- well-formed tables --------------------------------------------------------------------------- *)
-Definition valid_row (n : nat) (p : list N) : Prop :=
-  length p = 5%nat /\ NoDup p /\ Forall (fun i => (N.to_nat i < n)%nat) p.
-Definition valid_table (n : nat) (perms : list (list N)) : Prop :=
-  perms <> [] /\ forall p, In p perms -> valid_row n p.
-
-Definition valid_rowb (n : nat) (p : list N) : bool :=
-  Nat.eqb (length p) 5 && nodupb p && forallb (fun i => (N.to_nat i <? n)%nat) p.
-Lemma valid_tableb n perms :
-  negb (Nat.eqb (length perms) 0) && forallb (valid_rowb n) perms = true -> valid_table n perms.
-Proof.
-  intros H. apply andb_true_iff in H. destruct H as [H1 H2]. split.
-  - intros ->. discriminate H1.
-  - intros p Hp. rewrite forallb_forall in H2. specialize (H2 p Hp). unfold valid_rowb in H2.
-    rewrite !andb_true_iff in H2. destruct H2 as [[A B] C]. repeat split.
-    + apply Nat.eqb_eq, A.
-    + apply nodupb_NoDup, B.
-    + apply Forall_forall. intros i Hi. rewrite forallb_forall in C. apply Nat.ltb_lt, C, Hi.
-Qed.
-
-Lemma tables_valid : valid_table 6 SIX_PERMUTATIONS /\ valid_table 7 SEVEN_PERMUTATIONS.
-Proof. split; apply valid_tableb; vm_compute; reflexivity. Qed.
-
-Definition sel (ws : list N) (p : list N) : list N := map (fun i => nthN ws i 0) p.
-
-Lemma nthN_In (ws : list N) i : (N.to_nat i < length ws)%nat -> In (nthN ws i 0) ws.
-Proof. intros H. unfold nthN. apply nth_In, H. Qed.
 
 Lemma sel_hand5 n ws p : HandN n ws -> valid_row n p -> Hand5 (sel ws p) /\ incl (sel ws p) ws.
 Proof.
@@ -227,12 +198,5 @@ Proof.
   - unfold hand_rank_value, rmap. rewrite Hr. reflexivity.
   - intros x Hx. apply (proj1 (sort_desc_In x h)) in Hx. apply Hincl, Hx.
   - apply sort_desc_sorted.
-Qed.
-
-Lemma five_identity chk ws v h : length ws = 5%nat -> hrvh chk ws = Ok (v, h) -> h = ws.
-Proof.
-  intros HL H. unfold hrvh in H. rewrite HL in H. unfold hrvh5 in H.
-  match type of H with bind ?X _ = _ => destruct X; cbn [bind] in H; try discriminate H end.
-  now injection H.
 Qed.
 
